@@ -173,6 +173,8 @@ def run(repo: Repo, rep: Report, tier: str) -> None:
     _c19._declared_hook(repo, Only(rep, {"R19.4"}))
     from ..core import siblings as _sib2
     _sib2.check_own_method_tests(repo, rep, "R14.11")
+    from ..core import siblings as _sib3
+    _sib3.check_guard_mirror(repo, rep, "R15.10")
 
 def _read_before_install(repo: Repo, rep: Report) -> None:
     """R15.9: the codec (non-nailed) branch of pack_dataclass / unpack_dataclass binds the nested class's compiled
@@ -317,3 +319,6 @@ LEVEL_TEXT += _ADDENDUM
 _ADD6 = ' Borrowed: R14.11.'
 EXPLANATION += _ADD6
 LEVEL_TEXT += _ADD6
+_ADD11 = ' R15.10: the guards of nested compilations in pack.py and unpack.py are mirror images of each other.'
+EXPLANATION += _ADD11
+LEVEL_TEXT += _ADD11
